@@ -1,0 +1,33 @@
+//go:build verif
+
+// Contracts for the deductive verifier under /verif (comment-only file: it
+// adds no code; compiled only with -tags verif).
+package stream
+
+//verif:func newDLQWindow(size, threshold) (w)
+//verif:requires size >= 0
+//verif:ensures[fresh] fresh(w) && w != nil
+//verif:ensures[inv] winInv(w)
+//verif:ensures[size] len(w.window) == ite(size > 0 && threshold == 0, 1, size)
+//verif:ensures[init] w.nackCount == 0 && w.nackThreshold == threshold && forall k in [0, len(w.window)): !w.window[k]
+//verif:modifies nothing
+//verif:hint lemma_cnt_allfalse(arr(w.window), len(w.window))
+
+//verif:func (*dlqWindow).store(w, nacked)
+//verif:requires winInv(w)
+//verif:ensures[inv] winInv(w)
+//verif:ensures[state] winSt(w) == win_step(old(winSt(w)), nacked)
+//verif:modifies w.cursor, w.nackCount, w.ackCount, w.window[*]
+
+//verif:func (*dlqWindow).Ack(w)
+//verif:requires winInv(w)
+//verif:ensures[inv] winInv(w)
+//verif:ensures[state] winSt(w) == win_step(old(winSt(w)), false)
+//verif:modifies w.cursor, w.nackCount, w.ackCount, w.window[*]
+
+//verif:func (*dlqWindow).Nack(w) (ok)
+//verif:requires winInv(w)
+//verif:ensures[inv] winInv(w)
+//verif:ensures[state] winSt(w) == win_step(old(winSt(w)), true)
+//verif:ensures[decision] ok == (w.nackCount <= w.nackThreshold)
+//verif:modifies w.cursor, w.nackCount, w.ackCount, w.window[*]
